@@ -36,9 +36,9 @@ Proof.
 Qed.
 
 (* the group of a variable does not depend on which member names it *)
-Lemma in_group_same_set : forall dd ns sp sp' v, same_set sp sp' = true -> in_group dd ns sp v = in_group dd ns sp' v.
+Lemma in_group_same_set : forall dd ns skip sp sp' v, same_set sp sp' = true -> in_group dd ns skip sp v = in_group dd ns skip sp' v.
 Proof.
-  intros dd ns sp sp' v H. unfold in_group. f_equal.
+  intros dd ns skip sp sp' v H. unfold in_group. f_equal.
   destruct (same_set (spatial dd ns v) sp) eqn:E1, (same_set (spatial dd ns v) sp') eqn:E2; try reflexivity.
   - rewrite (same_set_trans _ _ _ E1 H) in E2. discriminate.
   - rewrite same_set_sym in H. rewrite (same_set_trans _ _ _ E2 H) in E1. discriminate.
@@ -57,23 +57,25 @@ Qed.
 
 (* a variable with the depth dimension and a horizontal dimension has a reference: the first data variable on the same
    depth dimension and the same horizontal dimensions (possibly itself) *)
-Lemma reference_exists : forall dd ns vs v, In v vs -> has dd (v_dims v) = true -> spatial dd ns v <> [] ->
-  exists r, reference dd ns vs v = Some r /\ In r vs /\ has dd (v_dims r) = true /\
+Lemma reference_exists : forall dd ns skip vs v, In v vs -> has dd (v_dims v) = true -> has (v_name v) skip = false ->
+  spatial dd ns v <> [] ->
+  exists r, reference dd ns skip vs v = Some r /\ In r vs /\ has dd (v_dims r) = true /\ has (v_name r) skip = false /\
             same_set (spatial dd ns r) (spatial dd ns v) = true.
 Proof.
-  intros dd ns vs v Hin Hdd Hsp. unfold reference.
-  destruct (find (in_group dd ns (spatial dd ns v)) vs) as [r|] eqn:E.
+  intros dd ns skip vs v Hin Hdd Hsk Hsp. unfold reference.
+  destruct (find (in_group dd ns skip (spatial dd ns v)) vs) as [r|] eqn:E.
   - exists r. apply find_some in E. destruct E as [Hr Hg]. unfold in_group in Hg.
-    apply andb_true_iff in Hg. destruct Hg as [Hg Hs]. apply andb_true_iff in Hg. destruct Hg as [Hd _]. now repeat split.
-  - exfalso. pose proof (find_none _ _ E v Hin) as Hn. unfold in_group in Hn. rewrite Hdd, same_set_refl in Hn.
+    apply andb_true_iff in Hg. destruct Hg as [Hg Hs]. apply andb_true_iff in Hg. destruct Hg as [Hg _].
+    apply andb_true_iff in Hg. destruct Hg as [Hd Hk]. apply negb_true_iff in Hk. now repeat split.
+  - exfalso. pose proof (find_none _ _ E v Hin) as Hn. unfold in_group in Hn. rewrite Hdd, Hsk, same_set_refl in Hn.
     destruct (spatial dd ns v); [contradiction|discriminate].
 Qed.
 
 (* ... and it is the first one: no earlier data variable belongs to the group *)
-Lemma reference_is_first : forall dd ns vs v r, reference dd ns vs v = Some r ->
-  exists pre post, vs = pre ++ r :: post /\ forall w, In w pre -> in_group dd ns (spatial dd ns v) w = false.
+Lemma reference_is_first : forall dd ns skip vs v r, reference dd ns skip vs v = Some r ->
+  exists pre post, vs = pre ++ r :: post /\ forall w, In w pre -> in_group dd ns skip (spatial dd ns v) w = false.
 Proof.
-  intros dd ns vs v r. unfold reference. generalize (in_group dd ns (spatial dd ns v)) as p. intros p.
+  intros dd ns skip vs v r. unfold reference. generalize (in_group dd ns skip (spatial dd ns v)) as p. intros p.
   induction vs as [|x xs IH]; simpl; [discriminate|]. destruct (p x) eqn:Ex.
   - intros H. injection H as ->. exists [], xs. split; [reflexivity|]. intros w [].
   - intros H. destruct (IH H) as [pre [post [-> Hpre]]]. exists (x :: pre), post. split; [reflexivity|].
@@ -81,11 +83,11 @@ Proof.
 Qed.
 
 (* all members of a group are reduced at the floor located in the same variable *)
-Lemma group_shares_reference : forall dd ns vs v w,
-  same_set (spatial dd ns v) (spatial dd ns w) = true -> reference dd ns vs v = reference dd ns vs w.
+Lemma group_shares_reference : forall dd ns skip vs v w,
+  same_set (spatial dd ns v) (spatial dd ns w) = true -> reference dd ns skip vs v = reference dd ns skip vs w.
 Proof.
-  intros dd ns vs v w H. unfold reference. induction vs as [|x xs IH]; simpl; [reflexivity|].
-  rewrite (in_group_same_set dd ns _ _ x H). destruct (in_group dd ns (spatial dd ns w) x); [reflexivity|exact IH].
+  intros dd ns skip vs v w H. unfold reference. induction vs as [|x xs IH]; simpl; [reflexivity|].
+  rewrite (in_group_same_set dd ns skip _ _ x H). destruct (in_group dd ns skip (spatial dd ns w) x); [reflexivity|exact IH].
 Qed.
 
 Lemma depth_dim_of_none : forall dds v, depth_dim_of dds v = None <-> (forall d, In d dds -> ~ In d (v_dims v)).
@@ -97,10 +99,10 @@ Proof.
 Qed.
 
 (* a variable without any depth dimension is left as it was: untouched, with all its dimensions *)
-Lemma no_depth_untouched : forall dds ns vs v, (forall d, In d dds -> ~ In d (v_dims v)) ->
-  action_of dds ns vs v = Untouched /\ result_dims dds v = v_dims v.
+Lemma no_depth_untouched : forall dds ns skip vs v, (forall d, In d dds -> ~ In d (v_dims v)) ->
+  action_of dds ns skip vs v = Untouched /\ result_dims dds v = v_dims v.
 Proof.
-  intros dds ns vs v H. split.
+  intros dds ns skip vs v H. split.
   - unfold action_of. apply depth_dim_of_none in H. now rewrite H.
   - unfold result_dims. induction (v_dims v) as [|d ds IH]; simpl; [reflexivity|].
     assert (Hd : has d dds = false).
@@ -109,22 +111,29 @@ Proof.
 Qed.
 
 (* conversely only such variables are untouched *)
-Lemma untouched_no_depth : forall dds ns vs v, action_of dds ns vs v = Untouched ->
+Lemma untouched_no_depth : forall dds ns skip vs v, action_of dds ns skip vs v = Untouched ->
   forall d, In d dds -> ~ In d (v_dims v).
 Proof.
-  intros dds ns vs v H. apply depth_dim_of_none. unfold action_of in H.
+  intros dds ns skip vs v H. apply depth_dim_of_none. unfold action_of in H.
   destruct (depth_dim_of dds v) as [dd|]; [|reflexivity].
-  destruct (is_nil (spatial dd ns v)); [discriminate|]. destruct (reference dd ns vs v); discriminate.
+  destruct (has (v_name v) skip); [discriminate|].
+  destruct (is_nil (spatial dd ns v)); [discriminate|]. destruct (reference dd ns skip vs v); discriminate.
 Qed.
 
+(* the bounds of a depth coordinate are never reduced and never locate a floor: they go with the dimension *)
+Lemma depth_bounds_dropped : forall dds ns skip vs v dd, depth_dim_of dds v = Some dd -> has (v_name v) skip = true ->
+  action_of dds ns skip vs v = Dropped.
+Proof. intros dds ns skip vs v dd Hd Hs. unfold action_of. now rewrite Hd, Hs. Qed.
+
 (* a data variable of the dataset with a depth dimension and a horizontal dimension is reduced, never dropped *)
-Lemma depth_variable_floored : forall dds ns vs v dd, In v vs -> depth_dim_of dds v = Some dd -> spatial dd ns v <> [] ->
-  exists r, action_of dds ns vs v = Floored dd (v_name r) /\ In r vs /\ has dd (v_dims r) = true /\
-            same_set (spatial dd ns r) (spatial dd ns v) = true.
+Lemma depth_variable_floored : forall dds ns skip vs v dd, In v vs -> depth_dim_of dds v = Some dd ->
+  has (v_name v) skip = false -> spatial dd ns v <> [] ->
+  exists r, action_of dds ns skip vs v = Floored dd (v_name r) /\ In r vs /\ has dd (v_dims r) = true /\
+            has (v_name r) skip = false /\ same_set (spatial dd ns r) (spatial dd ns v) = true.
 Proof.
-  intros dds ns vs v dd Hin Hd Hsp. unfold action_of. rewrite Hd.
+  intros dds ns skip vs v dd Hin Hd Hsk Hsp. unfold action_of. rewrite Hd, Hsk.
   assert (Hh : has dd (v_dims v) = true) by (unfold depth_dim_of in Hd; apply find_some in Hd; tauto).
-  destruct (reference_exists dd ns vs v Hin Hh Hsp) as [r [Hr [Hrin [Hrd Hrs]]]].
+  destruct (reference_exists dd ns skip vs v Hin Hh Hsk Hsp) as [r [Hr [Hrin [Hrd [Hrk Hrs]]]]].
   destruct (spatial dd ns v) eqn:E; [contradiction|]. simpl. rewrite <- E in *. rewrite Hr. exists r. now repeat split.
 Qed.
 
@@ -147,12 +156,12 @@ Proof.
   - pose proof (find_none _ _ E dd Hin) as Hn. simpl in Hn. apply has_In in Hv. congruence.
 Qed.
 
-Lemma action_order_independent : forall dds dds' ns vs v,
+Lemma action_order_independent : forall dds dds' ns skip vs v,
   (forall d, In d dds <-> In d dds') ->
   (forall d d', In d dds -> In d' dds -> In d (v_dims v) -> In d' (v_dims v) -> d = d') ->
-  action_of dds ns vs v = action_of dds' ns vs v.
+  action_of dds ns skip vs v = action_of dds' ns skip vs v.
 Proof.
-  intros dds dds' ns vs v Hperm Hone. unfold action_of.
+  intros dds dds' ns skip vs v Hperm Hone. unfold action_of.
   destruct (depth_dim_of dds v) as [dd|] eqn:E.
   - assert (Hd : In dd dds /\ In dd (v_dims v)).
     { unfold depth_dim_of in E. apply find_some in E. destruct E as [H1 H2]. apply has_In in H2. tauto. }
@@ -164,12 +173,13 @@ Proof.
     now rewrite E'.
 Qed.
 
-(* non-vacuity: temp(time, k, y, x), eta(time, y, x), salt(k, y, x), dz(k), u(k, yl, xl) with depth dimension k = 1,
+(* non-vacuity: depth bounds zc_bnds(k, two) = 15, temp(time, k, y, x), eta(time, y, x), salt(k, y, x), dz(k), u(k, yl, xl) with depth dimension k = 1,
    time = 0: temp and salt share the floor located in temp, u has its own, dz goes with the dimension, eta is untouched *)
 Example plan_example :
-  show_plan (plan [1] [0] [ {| v_name := 10; v_dims := [0; 1; 2; 3] |}; {| v_name := 11; v_dims := [0; 2; 3] |};
+  show_plan (plan [1] [0] [15] [ {| v_name := 15; v_dims := [1; 9] |};
+                            {| v_name := 10; v_dims := [0; 1; 2; 3] |}; {| v_name := 11; v_dims := [0; 2; 3] |};
                             {| v_name := 12; v_dims := [1; 3; 2] |}; {| v_name := 13; v_dims := [1] |};
                             {| v_name := 14; v_dims := [1; 4; 5] |} ]) =
-  [ (10, (1, 1, 10), Some [0; 2; 3]); (11, (0, 0, 0), Some [0; 2; 3]); (12, (1, 1, 10), Some [3; 2]);
+  [ (15, (2, 0, 0), None); (10, (1, 1, 10), Some [0; 2; 3]); (11, (0, 0, 0), Some [0; 2; 3]); (12, (1, 1, 10), Some [3; 2]);
     (13, (2, 0, 0), None); (14, (1, 1, 14), Some [4; 5]) ].
 Proof. vm_compute. reflexivity. Qed.
